@@ -47,6 +47,28 @@ func TestMiniSchema(t *testing.T) {
 			t.Errorf("%v: got %v want %v", c.d, got, c.want)
 		}
 	}
+	// compound keywords, verdicts written by hand from the JSON-schema specification
+	one := miniSchema{Props: map[string]string{"prefix": "string", "suffix": "string", "level": "integer"}, OneOf: [][]string{{"prefix"}, {"suffix"}}, NoExtra: true}
+	anyNot := miniSchema{Props: map[string]string{"team": "string", "owner": "string", "legacy": "boolean"}, AnyOf: [][]string{{"team"}, {"owner"}}, Not: []string{"legacy"}, NoExtra: true}
+	for _, c := range []struct {
+		s    miniSchema
+		d    map[string]any
+		want bool
+	}{
+		{one, map[string]any{"prefix": "p"}, true},
+		{one, map[string]any{"suffix": "s", "level": 2}, true},
+		{one, map[string]any{"prefix": "p", "suffix": "s"}, false}, // both branches: oneOf fails although every branch holds
+		{one, map[string]any{"level": 2}, false},
+		{one, map[string]any{}, false},
+		{anyNot, map[string]any{"team": "t"}, true},
+		{anyNot, map[string]any{"team": "t", "owner": "o"}, true},
+		{anyNot, map[string]any{}, false},
+		{anyNot, map[string]any{"owner": "o", "legacy": false}, false},
+	} {
+		if got := c.s.conforms(c.d); got != c.want {
+			t.Errorf("%v: got %v want %v", c.d, got, c.want)
+		}
+	}
 	open := miniSchema{Props: map[string]string{"owner": "string"}}
 	if !open.conforms(map[string]any{"anything": []any{1}}) {
 		t.Error("additionalProperties true accepts extra keys")
